@@ -31,6 +31,7 @@ def gen_cases(tier, seed):
     for _ in range(nrand):
         t = gen.random_tree(rng, rng.randint(full + 1, maxr))
         cases.append(c06.mk(t, embed=rng.random() < 0.3))
+    gen.sprinkle_adv(cases)
     dist = {"exhaustive_cases": nexh, "random_cases": nrand, "by_tree_size": {}}
     for c in cases:
         k = str(gen.tsize(c["tree"]))
